@@ -7,7 +7,7 @@
    schedule of all the goroutines holding ends of the streams; the arguments [ch] of
    ORecv / OFwd are the outcomes of Go's [select]s.  "forall fuel ops" therefore quantifies
    over every tree, every item sequence, every capacity and every interleaving. *)
-From Eino Require Import Base.Util Model.Stream Proofs.Stream.
+From Eino Require Import Base.Util Model.Stream Proofs.Stream Proofs.StreamRel Proofs.StreamWf Proofs.StreamClose Proofs.StreamLink Proofs.StreamSem.
 
 (* ------------------------------------------------------------------ base streams *)
 
@@ -93,6 +93,63 @@ Theorem array_merge_sequential : forall fuel G h0 h1 hs ts,
 Proof. exact array_merge. Qed.
 Print Assumptions array_merge_sequential.
 
+(* ------------------------------------------------------------------ ownership *)
+
+(* ownership_linear: in every reachable state (every schedule, no hypothesis) every base
+   stream and every copy-child slot is referenced by at most one reader — a live handle,
+   the source of a copy parent, the source of a forwarder goroutine —, every reference is in
+   range, copy parents refer to older parents only, forwarder destinations are distinct
+   internal streams: "the reader of a stream" is well defined. *)
+Theorem ownership_linear : forall fuel ops bs G, run fuel init_state ops = (bs, G) -> wf G.
+Proof. exact reachable_wf. Qed.
+Print Assumptions ownership_linear.
+
+(* ------------------------------------------------------------------ whole trees *)
+
+(* [legal_run fuel ops]: the schedule uses the API as documented — Copy / Merge / Convert
+   are applied to readers nothing has been received from yet and that are not closed ("the
+   original reader becomes unusable"), and no Recv is issued on a reader after its Close.
+   Everything else (which trees are built, when, interleaved in any way with sends, receives,
+   closes and forwarder steps; every select outcome; every fuel) is arbitrary. *)
+
+(* merge_is_interleaving (all trees): in every legal run, for every live reader handle and
+   whatever tree of copy / merge / convert it is the root of, the items Recv has returned on
+   it so far are an order-preserving interleaving of prefixes of its strands: the sequences
+   accepted so far by the pipes it derives from and the array contents, mapped item-wise
+   through the conversions on the way (ErrNoValue dropped).  With one strand this says
+   "a prefix of what was sent, in order"; for copies every child gets this for the same
+   strands; [strands] and [is_interleaving_of] are the functions the correspondence check
+   evaluates on the implementation's histories. *)
+Theorem merge_is_interleaving : forall fuel ops bs G,
+  run fuel init_state ops = (bs, G) -> legal_run fuel ops ->
+  forall h H, nth_error (st_handles G) h = Some H -> h_live H = true ->
+  forall N strs, strands N G (cur_w G) (h_rd H) = Some strs ->
+    Shuf false (h_got H) strs /\ is_interleaving_of false (h_got H) strs = true.
+Proof. exact run_tree_delivery. Qed.
+Print Assumptions merge_is_interleaving.
+
+(* pipe_reader_fifo: the reader end of a pipe has received exactly the accepted items that
+   are no longer buffered, in order *)
+Theorem pipe_reader_fifo : forall fuel ops bs G,
+  run fuel init_state ops = (bs, G) -> legal_run fuel ops ->
+  forall h H sid s, nth_error (st_handles G) h = Some H -> h_live H = true -> h_rd H = RStr sid ->
+    nth_error (streams (st_store G)) sid = Some s ->
+    s_sent s = h_got H ++ s_buf s.
+Proof. exact run_pipe_reader_fifo. Qed.
+Print Assumptions pipe_reader_fifo.
+
+(* copy_each_child_full (link form): the shared list of a copy parent is exactly what its
+   source reader has delivered, and what a child handle has received is a prefix of it — for
+   every interleaving of Recv / Close on the children and of everything else *)
+Theorem copy_child_prefix_of_source : forall fuel ops bs G,
+  run fuel init_state ops = (bs, G) -> legal_run fuel ops ->
+  forall h H p i P, nth_error (st_handles G) h = Some H -> h_live H = true -> h_rd H = RChild p i ->
+    nth_error (parents (st_store G)) p = Some P ->
+    Link (st_store G) (p_src P) (p_items P)
+    /\ (exists k, h_got H = firstn k (p_items P)).
+Proof. exact run_copy_child_link. Qed.
+Print Assumptions copy_child_prefix_of_source.
+
 (* ------------------------------------------------------------------ non-vacuity *)
 
 (* a run with a pipe, a conversion, a copy, a merge through forwarders, sends and receives:
@@ -114,4 +171,19 @@ Example ex_array_merge :
   fst (run 10 init_state [OArray [1%N; 2%N]; OArray [3%N]; ORecv 0 []; OMerge [1; 0]; ORecv 2 []; ORecv 2 []; ORecv 2 []])
   = [BNew [0]; BNew [1]; BRecv (PItem (IVal 1%N)); BNew [2];
      BRecv (PItem (IVal 3%N)); BRecv (PItem (IVal 2%N)); BRecv PEOF].
+Proof. vm_compute. reflexivity. Qed.
+
+(* the example run is legal, and its merged reader's strands are computed *)
+Example ex_legal : legal_run 50 ex_ops.
+Proof.
+  unfold legal_run, ex_ops. cbn -[N.eqb N.add].
+  repeat split; try (intros H0 E; inversion E; subst; split; reflexivity);
+    try (intros H0 E; inversion E; subst; reflexivity);
+    try (intros _; repeat constructor; intros H0 E; inversion E; subst; split; reflexivity).
+Qed.
+
+Example ex_strands :
+  let G := snd (run 50 init_state ex_ops) in
+  option_map (fun H => (h_got H, strands 20 G (cur_w G) (h_rd H))) (nth_error (st_handles G) 5)
+  = Some ([IVal 7%N; IVal 8%N], Some [[IVal 12%N]; [IVal 7%N; IVal 8%N]]).
 Proof. vm_compute. reflexivity. Qed.
